@@ -66,8 +66,11 @@ structure Sheet where
   colAt : Int → ColView
   rowAt : Int → RowView
   /-- `Worksheet.links`: (row, column, target) — no modelled operation creates one, but
-      `delete_sheet` and its undo carry them along (finding F01d) -/
+      `delete_sheet` and its undo carry them along (the undo restores them since the fix of F01d) -/
   links : List (Int × Int × String) := []
+  /-- plain cell contents (text a user typed that implies no format); `none` = no cell, or an empty
+      cell: the two are not distinguished here, as in the observable snapshot -/
+  cellAt : Int → Int → Option String := fun _ _ => none
 
 /-- `types.rs::DefinedName` (the formula is an opaque text here) -/
 structure DefName where
@@ -118,6 +121,9 @@ inductive Diff where
   | setColumnHidden (sheet : Nat) (column : Int) (old new : Bool)
   | setRowHidden (sheet : Nat) (row : Int) (old new : Bool)
   | moveRows (sheet : Nat) (row : Int) (rowCount : Int) (delta : Int)
+  | moveColumns (sheet : Nat) (column : Int) (columnCount : Int) (delta : Int)
+  | setCellValue (sheet : Nat) (row column : Int) (old : Option String) (new : String)
+  | rangeClearContents (sheet : Nat) (row column width height : Int) (old : Int → Int → Option String)
 
 /-- the modelled `pub fn`s of `UserModel` -/
 inductive Op where
@@ -138,6 +144,9 @@ inductive Op where
   | setColumnsHidden (sheet : Nat) (c1 c2 : Int) (hidden : Bool)
   | setRowsHidden (sheet : Nat) (r1 r2 : Int) (hidden : Bool)
   | moveRows (sheet : Nat) (row : Int) (rowCount : Int) (delta : Int)
+  | moveColumns (sheet : Nat) (column : Int) (columnCount : Int) (delta : Int)
+  | setPlainInput (sheet : Nat) (row column : Int) (text : String)
+  | rangeClearContents (sheet : Nat) (row column width height : Int)
   deriving Repr
 
 abbrev Out := OpOut Book Diff Err
@@ -159,7 +168,7 @@ def setSheet (b : Book) (i : Nat) (s : Sheet) : Book := { b with sheets := b.she
 def emptySheet (name : String) (id : Nat) : Sheet :=
   { name := name, id := id, state := .visible, color := "", frozenRows := 0, frozenCols := 0,
     grid := true, colAt := fun _ => ColView.default, rowAt := fun _ => RowView.default,
-    links := [] }
+    links := [], cellAt := fun _ _ => none }
 
 /-! ### model-level functions (`model.rs`, `new_empty.rs`, `worksheet.rs`) -/
 
@@ -369,11 +378,11 @@ def rowSrc (row delta x : Int) : Int :=
   else if delta < 0 ∧ row + delta < x ∧ x ≤ row then x - 1
   else x
 
-def moveRow1 (f : Int → RowView) (row delta : Int) : Int → RowView := fun x => f (rowSrc row delta x)
+def moveRow1 {α : Type} (f : Int → α) (row delta : Int) : Int → α := fun x => f (rowSrc row delta x)
 
 /-- the loop of `actions.rs::move_rows_action`: `n` rows starting at `row`, moved one by one —
     last row first when moving down (`.rev()`), first row first when moving up -/
-def moveRowsLoop (delta : Int) : Nat → Int → (Int → RowView) → (Int → RowView)
+def moveRowsLoop {α : Type} (delta : Int) : Nat → Int → (Int → α) → (Int → α)
   | 0, _, f => f
   | n + 1, row, f =>
     if 0 < delta then moveRowsLoop delta n row (moveRow1 f (row + n) delta)
@@ -388,7 +397,11 @@ def mMoveRows (b : Book) (sheet : Nat) (row count delta : Int) : Except Err Book
   else
     match getSheet b sheet with
     | .error e => .error e
-    | .ok s => .ok (setSheet b sheet { s with rowAt := moveRowsLoop delta count.toNat row s.rowAt })
+    | .ok s =>
+      .ok (setSheet b sheet
+        { s with
+          rowAt := moveRowsLoop delta count.toNat row s.rowAt,
+          cellAt := moveRowsLoop delta count.toNat row s.cellAt })
 
 /-- the scan of `common.rs::move_rows_action` that skips hidden rows in the landing zone:
     `n` rows starting at `r`; `is_row_hidden` fails on a row outside the grid -/
@@ -397,6 +410,64 @@ def hiddenAdjust (s : Sheet) (step : Int) : Nat → Int → Int → Except Err I
   | n + 1, r, acc =>
     if !validRow r then .error .invalidRow
     else hiddenAdjust s step n (r + 1) (if (s.rowAt r).hidden then acc + step else acc)
+
+/-- models `actions.rs::move_columns_action` on the column attributes: the same permutation as for
+    rows, applied to the per-column view (`move_column_unchecked` copies width / hidden / style from
+    column to column with `set_column_width_and_style`) -/
+def mMoveColumns (b : Book) (sheet : Nat) (column count delta : Int) : Except Err Book :=
+  if count ≤ 0 ∨ delta = 0 then .ok b
+  else if !validCol (column + delta) || !validCol (column + count - 1 + delta) then .error .invalidColumn
+  else if !validCol column || !validCol (column + count - 1) then .error .invalidColumn
+  else
+    match getSheet b sheet with
+    | .error e => .error e
+    | .ok s =>
+      .ok (setSheet b sheet
+        { s with
+          colAt := moveRowsLoop delta count.toNat column s.colAt,
+          cellAt := fun r => moveRowsLoop delta count.toNat column (s.cellAt r) })
+
+/-- the scan of `common.rs::move_columns_action` that skips hidden columns in the landing zone -/
+def hiddenAdjustCols (s : Sheet) (step : Int) : Nat → Int → Int → Except Err Int
+  | 0, _, acc => .ok acc
+  | n + 1, c, acc =>
+    if !validCol c then .error .invalidColumn
+    else hiddenAdjustCols s step n (c + 1) (if (s.colAt c).hidden then acc + step else acc)
+
+def upd2 (f : Int → Int → Option String) (r c : Int) (v : Option String) : Int → Int → Option String :=
+  fun x y => if x = r ∧ y = c then v else f x y
+
+def inArea (row column width height r c : Int) : Bool :=
+  decide (row ≤ r) && decide (r < row + height) && decide (column ≤ c) && decide (c < column + width)
+
+/-- models `model.rs::set_user_input` for a plain text (and `update_cell` / `remove_cell` of the
+    undo arm): the cell holds `v`, `none` removes it -/
+def mSetCell (b : Book) (sheet : Nat) (r c : Int) (v : Option String) : Except Err Book :=
+  match getSheet b sheet with
+  | .error e => .error e
+  | .ok s =>
+    if !validRow r then .error .invalidRow
+    else if !validCol c then .error .invalidColumn
+    else .ok (setSheet b sheet { s with cellAt := upd2 s.cellAt r c v })
+
+/-- models `model.rs::range_clear_contents` on plain cells: every cell of the area is emptied -/
+def mClearArea (b : Book) (sheet : Nat) (row column width height : Int) : Except Err Book :=
+  match getSheet b sheet with
+  | .error e => .error e
+  | .ok s =>
+    .ok (setSheet b sheet
+      { s with cellAt := fun r c => if inArea row column width height r c then none else s.cellAt r c })
+
+/-- models the `RangeClearContents` arm of `apply_undo_diff_list`: the saved cells that existed are
+    written back (`update_cell`), the others are left alone -/
+def mRestoreArea (b : Book) (sheet : Nat) (row column width height : Int)
+    (old : Int → Int → Option String) : Except Err Book :=
+  match getSheet b sheet with
+  | .error e => .error e
+  | .ok s =>
+    .ok (setSheet b sheet
+      { s with cellAt := fun r c =>
+          if inArea row column width height r c && (old r c).isSome then old r c else s.cellAt r c })
 
 /-! ### replay of one diff (`undo_redo.rs`) -/
 
@@ -419,6 +490,9 @@ def fwd1 (env : Env) (b : Book) : Diff → Except Err Book
   | .setColumnHidden sheet c _ new => mSetColumnHidden b sheet c new
   | .setRowHidden sheet r _ new => mSetRowHidden b sheet r new
   | .moveRows sheet row count delta => mMoveRows b sheet row count delta
+  | .moveColumns sheet column count delta => mMoveColumns b sheet column count delta
+  | .setCellValue sheet r c _ new => mSetCell b sheet r c (some new)
+  | .rangeClearContents sheet r c w h _ => mClearArea b sheet r c w h
 
 /-- models one arm of `apply_undo_diff_list` -/
 def back1 (env : Env) (b : Book) : Diff → Except Err Book
@@ -434,8 +508,8 @@ def back1 (env : Env) (b : Book) : Diff → Except Err Book
   | .newSheet i _ => mDeleteSheet b i
   | .deleteSheet i old =>
     -- `insert_sheet(name, index, Some(sheet_id))`, then the fields the arm copies back:
-    -- rows, cols, show_grid_lines, frozen_columns, frozen_rows, state, color
-    -- (NOT `links` and `conditional_formatting`: finding F01d)
+    -- rows, cols, show_grid_lines, frozen_columns, frozen_rows, state, color, links
+    -- (`links` and `conditional_formatting` since the fix of finding F01d)
     match mInsertSheet env b old.name i (some old.id) with
     | .error e => .error e
     | .ok b1 =>
@@ -446,7 +520,7 @@ def back1 (env : Env) (b : Book) : Diff → Except Err Book
           { s with
             rowAt := old.rowAt, colAt := old.colAt,
             grid := old.grid, frozenCols := old.frozenCols, frozenRows := old.frozenRows,
-            state := old.state, color := old.color })
+            state := old.state, color := old.color, links := old.links, cellAt := old.cellAt })
   | .deleteDefinedName name scope old => mNewDefinedName env b name scope old
   | .setColumnWidth sheet c old _ => mSetColumnWidth b sheet c old
   | .setRowHeight sheet r old _ => mSetRowHeight b sheet r old
@@ -454,6 +528,10 @@ def back1 (env : Env) (b : Book) : Diff → Except Err Book
   | .setRowHidden sheet r old _ => mSetRowHidden b sheet r old
   -- `move_rows_action(sheet, row + delta, row_count, -delta)` at the Model level (no hidden-row scan)
   | .moveRows sheet row count delta => mMoveRows b sheet (row + delta) count (-delta)
+  | .moveColumns sheet column count delta => mMoveColumns b sheet (column + delta) count (-delta)
+  -- `Some(cell)` → `update_cell`, `None` → `remove_cell` (since the fix of F01a)
+  | .setCellValue sheet r c old _ => mSetCell b sheet r c old
+  | .rangeClearContents sheet r c w h old => mRestoreArea b sheet r c w h old
 
 /-- the loop of `apply_diff_list`: front to back, `?` stops at the first error -/
 def foldDiffs (f : Book → Diff → Except Err Book) : Book → List Diff → Applied Book
@@ -706,6 +784,69 @@ def moveRows (b : Book) (sheet : Nat) (row count delta : Int) : Out :=
         | .error e => fail b e
         | .ok b' => done b' [.moveRows sheet row count nd]
 
+def moveScanCols (s : Sheet) (column count delta : Int) : Except Err Int :=
+  if 0 < delta then hiddenAdjustCols s 1 (delta + 1).toNat (column + count) delta
+  else hiddenAdjustCols s (-1) (-delta).toNat (column + delta) delta
+
+/-- models `common.rs::move_columns_action` (twin of `moveRows`) -/
+def moveColumns (b : Book) (sheet : Nat) (column count delta : Int) : Out :=
+  if delta = 0 ∨ count ≤ 0 then ⟨b, none, none⟩
+  else
+    match getSheet b sheet with
+    | .error e => fail b e
+    | .ok s =>
+      match moveScanCols s column count delta with
+      | .error e => fail b e
+      | .ok nd =>
+        match mMoveColumns b sheet column count nd with
+        | .error e => fail b e
+        | .ok b' => done b' [.moveColumns sheet column count nd]
+
+/-- the height `set_user_input` needs for one line of the default font: `8 + font size` -/
+def ONE_LINE_HEIGHT : Int := 20
+
+/-- models `common.rs::set_user_input` for a plain one-line text (no implied format, no link):
+    validate, remember the old cell, write, auto-fit the row (compared with the row's ACTUAL height;
+    recorded as a second diff) -/
+def setPlainInput (b : Book) (sheet : Nat) (r c : Int) (text : String) : Out :=
+  if !validCol c then fail b .invalidColumn
+  else if !validRow r then fail b .invalidRow
+  else
+    match getSheet b sheet with
+    | .error e => fail b e
+    | .ok s =>
+      match mSetCell b sheet r c (some text) with
+      | .error e => fail b e
+      | .ok b1 =>
+        if (s.rowAt r).height < ONE_LINE_HEIGHT then
+          match mSetRowHeight b1 sheet r ONE_LINE_HEIGHT with
+          | .error e => ⟨b1, none, some e⟩
+          | .ok b2 => done b2 [.setCellValue sheet r c (s.cellAt r c) text,
+              .setRowHeight sheet r (s.rowAt r).height ONE_LINE_HEIGHT]
+        else done b1 [.setCellValue sheet r c (s.cellAt r c) text]
+
+/-- `common.rs::validate_area` -/
+def checkArea (b : Book) (sheet : Nat) (row column width height : Int) : Option Err :=
+  match getSheet b sheet with
+  | .error e => some e
+  | .ok _ =>
+    if 0 < width && 0 < height &&
+        (!validRow row || !validCol column || !validRow (row + height - 1) || !validCol (column + width - 1))
+    then some .invalidRow else none
+
+/-- models `common.rs::range_clear_contents` on plain cells (the `SetCellLink` diffs for links inside
+    the area are not modelled: `dom` asks for a sheet without links) -/
+def rangeClearContents (b : Book) (sheet : Nat) (row column width height : Int) : Out :=
+  match checkArea b sheet row column width height with
+  | some e => fail b e
+  | none =>
+    match getSheet b sheet with
+    | .error e => fail b e
+    | .ok s =>
+      match mClearArea b sheet row column width height with
+      | .error e => fail b e
+      | .ok b' => done b' [.rangeClearContents sheet row column width height s.cellAt]
+
 def doOp (env : Env) (b : Book) : Op → Out
   | .setName n => setName b n
   | .setTimezone tz => setTimezone env b tz
@@ -724,6 +865,9 @@ def doOp (env : Env) (b : Book) : Op → Out
   | .setColumnsHidden s c1 c2 h => setColumnsHidden b s c1 c2 h
   | .setRowsHidden s r1 r2 h => setRowsHidden b s r1 r2 h
   | .moveRows s r n d => moveRows b s r n d
+  | .moveColumns s c n d => moveColumns b s c n d
+  | .setPlainInput s r c t => setPlainInput b s r c t
+  | .rangeClearContents s r c w h => rangeClearContents b s r c w h
 
 /-- the concrete system -/
 def sys (env : Env) : Sys Book Diff Op Err :=
